@@ -28,8 +28,10 @@ type tickEv struct {
 }
 
 type seenVal struct {
-	Active bool
-	Act    uint64
+	Active  bool // status is one of the active states
+	Pending bool // status is one of the pending states
+	Act     uint64
+	Exit    uint64
 }
 
 // callEv is one answer the scheduler received from its eth2 client (after the caches).
@@ -491,7 +493,10 @@ func (c *recClient) CompleteValidators(ctx context.Context) (eth2wrap.CompleteVa
 				ev.Corrupt = true
 				continue
 			}
-			ev.Seen[idx] = seenVal{Active: v.Status.IsActive(), Act: uint64(v.Validator.ActivationEpoch)}
+			ev.Seen[idx] = seenVal{
+				Active: v.Status.IsActive(), Pending: v.Status.IsPending(),
+				Act: uint64(v.Validator.ActivationEpoch), Exit: uint64(v.Validator.ExitEpoch),
+			}
 		}
 	}
 	c.record(ev)
